@@ -278,7 +278,9 @@ def lit(mv: Tuple[str, Any]) -> str:
         sign = "-" if p < 0 else ""
         s, us = divmod(abs(p), 10**6)
         if us:
-            return f'duration("{sign}{s}s{us}us")' if s < 10**9 else None  # caller must bind instead
+            if s >= 10**9:
+                raise ValueError("no exact literal for this duration (bind it instead)")
+            return f'duration("{sign}{s}s{us}us")'
         return f'duration("{sign}{s}s")'
     if tag == "type":
         return p
